@@ -231,6 +231,46 @@ def r5_with_meta_pure_and_exact(ctx):
            witness="(meta (with-meta (with-meta [1] {:a 1}) nil)) => {:a 1}")
 
 
+@rule("C04.R11", floor=1)
+def r11_native_seq_methods_do_not_unwrap_what_python_may_leave_out(ctx):
+    """A method of the native seq classes (Cons, LazySeq, ...) that unwraps an Option taken from a
+    struct field or from one of its own parameters panics when the option is None -- and None is
+    what Python legitimately passes or stores there (a Cons onto an empty collection has no rest,
+    an empty lazy seq has no seq).  A panic surfaces as pyo3's PanicException, a BaseException that
+    `(catch python/Exception ...)` does not catch, for an operation (with-meta) that the model
+    defines on every value.  Every such unwrap is therefore guarded by an is_some() test of the
+    same expression in the same condition, or replaced by a match."""
+    import re
+    rf = ctx.rust(RS)
+    n = 0
+    for f in rf.fns:
+        if f.owner == "":
+            continue  # module initialisation unwraps import results, not caller-supplied options
+        sig_start = rf.code.rfind("fn " + f.name, 0, f.start)
+        sig = rf.code[sig_start:f.start] if sig_start >= 0 else ""
+        opt_params = set(re.findall(r"\b([a-z_][a-z0-9_]*)\s*:\s*Option\s*<", sig))
+        st = rf.structs.get(f.owner)
+        opt_fields = set(re.findall(r"\b([a-z_][a-z0-9_]*)\s*:\s*Option\s*<", st[1])) if st else set()
+        for m in re.finditer(r"((?:self|cur|slf|[a-z_][a-z0-9_]*)(?:\s*\.\s*[a-z_][a-z0-9_]*(?:\s*\([^()]*\))?)*?)\s*\.\s*unwrap\s*\(\s*\)", f.body):
+            chain = re.sub(r"\s+", "", m.group(1))
+            head = chain.split(".")[0]
+            field = chain.split(".")[1].split("(")[0] if "." in chain else None
+            is_opt = (head in opt_params) or (head in ("self", "cur", "slf") and field in opt_fields)
+            if not is_opt:
+                continue
+            n += 1
+            base = head if head in opt_params else f"{head}.{field}"
+            # the statement / condition the unwrap sits in
+            a = max(f.body.rfind(";", 0, m.start()), f.body.rfind("{", 0, m.start()), f.body.rfind("}", 0, m.start())) + 1
+            before = re.sub(r"\s+", "", f.body[a:m.start()])
+            guarded = f"{base}.is_some()&&" in before or re.search(r"iflet\s*Some", f.body[a:m.start()]) is not None
+            ctx.ob("C04.R11", f"{RS}::{f.owner}::{f.name}::{chain}.unwrap() is guarded by is_some()", RS, rf.line_of(f.start + 1 + m.start()), guarded,
+                   "" if guarded else f"`{chain}.unwrap()` panics when `{base}` is None, which Python code can make it: the operation raises PanicException (a BaseException) instead of working on, or rejecting, the value",
+                   witness="(with-meta (cons 1 []) {:a 1}) / (with-meta (map inc []) {:a 1}) => pyo3_runtime.PanicException")
+    if n == 0:
+        ctx.ob("C04.R11", f"{RS}::no method unwraps an Option field or parameter", RS, 0, True)
+
+
 @rule("C04.R10", floor=4)
 def r10_every_sequential_collection_has_an_nth_arm(ctx):
     """nth (and with it sequential destructuring and rand-nth) dispatches on the type of the
@@ -408,6 +448,9 @@ def r7_runtime_ops_do_not_return_their_input_blindly(ctx):
 
 
 SELFTEST = [
+    {"name": "Cons::with_meta unwraps an absent rest (the repaired defect)", "file": RS, "expect": "C04.R11",
+     "old": "        let rest = match &cur.rest {\n            Some(r) => r.clone_ref(py),\n            None => py.None(),\n        };\n        tp.call((cur.first.clone_ref(py), rest), Some(&kwargs))",
+     "new": "        tp.call((cur.first.clone_ref(py), cur.rest.as_ref().unwrap().clone_ref(py)), Some(&kwargs))"},
     {"name": "nth has no arm for queues (the repaired defect)", "file": RT, "expect": "C04.R10",
      "old": "@nth.register(lqueue.PersistentQueue)\n", "new": ""},
     {"name": "list pop hands out rest (the repaired defect)", "file": "src/basilisp/lang/list.py", "expect": "C04.R9",
